@@ -604,6 +604,7 @@ def c15(tier, seed):
     from . import asynck, twins, overlay
     ck = Check('C15', tier, seed)
     prog = load_program(('async-vfs',))
+    ck.selftest = quick_selftest(prog, seed, 30 if tier == 'quick' else 300, kinds=['amem', 'amem', 'aalt', 'aovl', 'aovl3', 'aaltovl', 'aovlalt', 'mem'], profile='async')
     rng = random.Random(seed)
     k = 3 if tier == 'quick' else 4
     cases = [{'clen': c, 'k': k if c < 3 else k - 1} for c in range(0, 4 if tier == 'quick' else 5)]
